@@ -193,6 +193,16 @@ def bcsOfBco (g : Array Rat) (l : List BcOff) : Except Err (List BcOff × List B
     let tl ← bcsLoop g b0 first rest
     .ok (b0 :: rest, first :: tl)
 
+/-! ### TimingMap.from_bpm_changes_offset, BpmList.to_timing_map -/
+
+/-- `TimingMap.from_bpm_changes_offset(bco_s)`: sorts the list by offset (in place, stable) and stores it -/
+def fromBcOff (l : List BcOff) : List BcOff := sortBcOff l
+
+/-- `BpmList.to_timing_map()`: one `BpmChangeOffset(bpm, metronome, offset)` per row `(offset, bpm, metronome)`,
+in row order, none dropped, none merged, handed to `from_bpm_changes_offset` -/
+def bpmListToTimingMap (rows : List (Rat × Rat × Rat)) : List BcOff :=
+  fromBcOff (rows.map fun r => ⟨r.2.1, r.2.2, r.1⟩)
+
 /-! ### permutations -/
 
 def gather {α} [Inhabited α] (xs : List α) (idx : List Nat) : List α := idx.map (fun i => xs.getD i default)
